@@ -241,7 +241,7 @@ def miri(batches, run_dir, jobs=16, timeout=3000):
                     continue
                 culprit = reqs[len(outs)] if len(outs) < len(reqs) else None
                 frame = _first_repo_frame(err)
-                sig = "sanitizer/miri/%s" % re.sub(r"[^A-Za-z0-9_.:/-]+", "_", kind[:80] + "@" + frame)[:150]
+                sig = "sanitizer/miri/%s" % re.sub(r"[^A-Za-z_.:/-]+", "_", re.sub(r"<\d+>|alloc\d+|0x[0-9a-f]+", "N", kind[:90]) + "@" + frame)[:150]
                 viol.append({"sig": sig, "msg": "Miri: %s (at %s) while executing %s" % (kind[:200], frame, json.dumps(culprit)[:300]),
                              "case": None, "obs": [{"stderr": err[-3000:]}]})
             for o in outs:
